@@ -21,7 +21,7 @@ func init() {
 		Rule: "RateLimitedAttester.VerifyRequest on honest requests (made by pat-go's client and by the harness's own signer), every single-bit flip of every field of one honest request per client (request key, name key id, ciphertext, signature, blind, client key: exhaustive; every fourth flip also on a request object decoded from the wire and marshalled before the tampering, so a stale encoding cache cannot stand in for the fields), signatures by unrelated keys, signatures of other requests, (r, N-s), r or s in {0, N}, wrong/shifted blinds, leading-zero blinds, wrong or malformed client and request keys. " +
 			"Oracle: accept iff crypto/ecdsa.Verify(request key, SHA-384(type||request_key||name_key_id||len16||ciphertext), r, s) and request_key == compress(hash_to_field-blind(client key, blind, 0x0003||\"ClientBlind\")) computed by the reference; on reject: non-nil error, zero Put calls and every cached state snapshot unchanged; on accept: state is registered for this client only and no other client's snapshot changes. " +
 			"distinct_nontrivial = distinct (case class, field, bit) keys",
-		Floors:      []string{"accept_agree", "reject_agree", "reject_bad_signature", "reject_key_mismatch", "reject_malformed_key", "bitflips", "tampered_after_marshal", "tampered_after_original_accepted", "state_unchanged_on_reject", "state_registered_on_accept", "stream_accept_agree", "stream_reject_agree", "double_faults"},
+		Floors:      []string{"accept_agree", "reject_agree", "reject_bad_signature", "reject_key_mismatch", "reject_malformed_key", "bitflips", "tampered_after_marshal", "tampered_after_original_accepted", "state_unchanged_on_reject", "state_registered_on_accept", "stream_accept_agree", "stream_reject_agree", "double_faults", "long_encrypted_requests"},
 		Assumptions: []string{"request structs have the shapes the wire decoder produces (49/32/1..65535/96 bytes)", "crypto/ecdsa and crypto/elliptic of the Go standard library are the reference"},
 		Run:         runC06,
 	})
@@ -370,6 +370,25 @@ func runC06(c *core.Ctx) {
 		}
 	}
 	c.Exhaustive("single-bit flips of every field of one honest request per client")
+	// 2b. long encrypted requests, up to the largest a 16-bit length prefix can carry: the signature covers all of it
+	for li, ctLen := range []int{600, 1023, 1024, 1025, 1100, 4096, 5000, 32767, 32768, 65450, 65451, 65500, 65534, 65535} {
+		if !c.Next() {
+			continue
+		}
+		r := c.CaseRng()
+		h := c06MkHonest(r, secrets[li%nClients], blinds[li%len(blinds)], ctLen)
+		w.call(h.mk(fmt.Sprintf("honest-long-ciphertext#%d", ctLen)))
+		for _, pos := range []int{0, 84, 900, 1023, 1024, 1025, ctLen / 2, ctLen - 100, ctLen - 2, ctLen - 1} {
+			if pos < 0 || pos >= ctLen {
+				continue
+			}
+			cs := h.mk(fmt.Sprintf("long-ciphertext-bitflip#%d@%d", ctLen, pos))
+			cs.req.EncryptedTokenRequest[pos] ^= 0x10
+			w.call(cs)
+		}
+		c.Class("long_encrypted_requests")
+		c.Distinctf("long-ct:%d", ctLen)
+	}
 	// 3. structured forgeries
 	nrep := c.Pick(2, 60)
 	for rep := 0; rep < nrep; rep++ {
